@@ -46,8 +46,7 @@ CODES = {'Unspecified': RC.UNSPECIFIED, 'KeyCompromise': RC.KEY_COMPROMISE, 'CAC
 COMPROMISE_CODES = ('KeyCompromise', 'CACompromise')       # the property text: key- or CA-compromise
 REASONS = {'ITEM_NOT_FOUND': 'ItemNotFound', 'PERMISSION_DENIED': 'PermissionDenied',
            'ILLEGAL_OPERATION': 'IllegalOperation', 'INVALID_FIELD': 'InvalidField'}
-BIT = {'SIGN': 0x1, 'VERIFY': 0x2, 'ENCRYPT': 0x4, 'DECRYPT': 0x8, 'WRAP_KEY': 0x10, 'MAC_GENERATE': 0x80,
-       'DERIVE_KEY': 0x200}
+BIT = {n: M[n].value for n in ('SIGN', 'VERIFY', 'ENCRYPT', 'DECRYPT', 'WRAP_KEY', 'MAC_GENERATE', 'DERIVE_KEY')}
 FULL = sum(BIT.values())
 # which guard refused, recognised by the text of the result message (engine.py); anything else is unclassified
 MESSAGES = [
@@ -707,6 +706,17 @@ def jsonable(res, upto=None):
 
 
 # ---------------------------------------------------------------------------------------- the check
+def check_constants(ctx):
+    """The model's bit positions, state and reason-code constructors against kmip.core.enums of the tree under test."""
+    want_bits = {'SIGN': 0, 'VERIFY': 1, 'ENCRYPT': 2, 'DECRYPT': 3, 'WRAP_KEY': 4, 'MAC_GENERATE': 7, 'DERIVE_KEY': 9}   # Model.v b*
+    problems = [n for n, b in want_bits.items() if BIT[n] != 1 << b]
+    problems += [n for n in STATES if n not in enums.State.__members__] + [n.name for n in enums.State if n.name not in STATES]
+    problems += [c.name for c in RC if c not in CODES.values()]
+    if problems:
+        ctx.broken.append({'kind': 'translation', 'name': 'kmip.core.enums vs Lifecycle/Model.v constants',
+                           'detail': 'differ: %r' % problems, 'candidates': []})
+
+
 def load_own_findings(ctx):
     """findings.d/C04.json is the source bin/mkmanifest merges into known_findings.json; read it directly as well so
     that the check does not depend on the merge having been run."""
@@ -731,6 +741,8 @@ def run(ctx):
         'the model covers one identity owning every object under the default policy; creation requests are well formed',
     ]
     load_own_findings(ctx)
+    check_constants(ctx)
+    ctx.regen(only=['lifecycle'])       # tie T: guard skeleton of engine.py -> gen/LifecycleGuards.v
     ctx.prove('props/C04.v')
     histories = all_histories(ctx)
     ctx.log('%d histories, %d operations' % (len(histories), sum(len(h) for _, h in histories)))
@@ -811,6 +823,11 @@ def replay(ctx, data):
     hits = oracle_history(res)
     for step, sig, what in hits:
         print('ORACLE step %d: %s  %s' % (step, what, json.dumps(sig, sort_keys=True)))
-    ok, out, err = ctx.coq_eval('replay', HEADER + '\nEval vm_compute in (check_hcase (%s), explain (%s)).\n' % (coq_case(res), coq_case(res)))
-    print('model agrees / first disagreement:', ' '.join(out.split()) if ok else err[-500:])
-    return 1 if hits or 'true' not in out.split('explain')[0][:200] else 0
+    ok, out, err = ctx.coq_eval('replay', HEADER + '\nEval vm_compute in (check_hcase (%s)).\nEval vm_compute in (explain (%s)).\n'
+                                % (coq_case(res), coq_case(res)))
+    flat = ' '.join(out.split())
+    agrees = ok and flat.startswith('= true')
+    print('model agrees with the implementation on this history:', agrees)
+    if not agrees:
+        print('first disagreement (step index, model outcome, model objects):', flat if ok else err[-500:])
+    return 1 if hits or not agrees else 0
